@@ -14,7 +14,7 @@ def TEMPO_LOOP_SORTED : Bool := true
 /-- AST: the three grouping loops index `instrument_events` by these attributes, in this order -/
 def GROUP_KEY_FIELDS : List String := ["instrument", "program", "is_drum"]
 /-- AST: the instrument loop iterates `sorted(instrument_events.keys())` -/
-def GROUP_LOOP_SORTED : Bool := false
+def GROUP_LOOP_SORTED : Bool := true
 /-- AST of midi_to_note_sequence: `key_number % K` and `key_number // K` -/
 def KEY_DECODE_MODULUS : Int := 12
 /-- `pretty_midi.pretty_midi.MAX_TICK` in force after `import note_seq.midi_io` (floor): the loader refuses a
